@@ -683,6 +683,12 @@ def run(ctx, load):
     ctx.floor('C05.tree-moves-keep-every-node', 9)
     # every operation of Array and List evaluated on small instances: the elements that leave are destructed once, those that stay are
     # neither dropped nor duplicated nor byte-copied from another container, a new slot is cleared and stamped before it is assigned
+    # an element is never finalised while it is still contained: the collector reaches it through the container's Mark instance, which must
+    # hand on every element whose type can hold a reference (shared with C01.container-mark)
+    from . import rules_c01
+    Pm = load(rules_c01.UNITS, 'default', rules_c01.WITNESS)
+    ctx.config = 'default'
+    ctx.borrow('C05.contained-elements-are-marked', 10, lambda: rules_c01.check_container_marks(Pm, ctx))
     # an operation that is refused has built nothing: a key or element constructed before the refusal is owned by nobody and never finalised
     # (mutation-before-raise analysis shared with C12)
     from . import rules_c12
